@@ -31,6 +31,13 @@ CHECK = {
             "budget_s": {"quick": 80, "thorough": 900},
         },
         {
+            # the real runInProcess path (the hook replaces it elsewhere): scripted server functions, virtual time
+            "name": "c11-inproc", "pkg": CC, "harness": ["connectconformance/c11_inproc_test.go", "connectconformance/osproc_test.go", "connectconformance/c10_test.go", "connectconformance/c05_test.go", "connectconformance/peersim_test.go", "connectconformance/c11_test.go", "connectconformance/fakeproc_test.go", "connectconformance/gateutil_test.go"],
+            "test": "^TestVerifC11InProcess$",
+            "shards": {"quick": 8, "thorough": 16},
+            "budget_s": {"quick": 60, "thorough": 300},
+        },
+        {
             "name": "c11-gate", "pkg": CC, "rewrite": [CC],
             "harness": ["connectconformance/c11_test.go", "connectconformance/fakeproc_test.go", "connectconformance/gateutil_test.go"],
             "test": "^TestVerifC11$", "gomaxprocs": 1,
